@@ -139,6 +139,20 @@ pub(super) fn generate_method_impl(
     // body
     let mut method_sig = method.sig.clone();
     remove_param_attrs(&mut method_sig);
+    if method_sig.asyncness.is_none() {
+        // The method is declared as `fn ...() -> impl Future<Output = ...>`.
+        method_sig.output = syn::parse2(quote! {
+            -> impl ::core::future::Future<Output = #return_type>
+        })?;
+        return Ok(quote! {
+            #method_sig
+            {
+                async move {
+                    #implementation
+                }
+            }
+        });
+    }
     method_sig.output = syn::parse2(quote! { -> #return_type })?;
 
     Ok(quote! {
